@@ -10,6 +10,7 @@ from .trees import *
 from .families import families
 from mirsym.stdmodel import struct_eq
 from mirsym.values import Seg
+from mirsym.interp import Unsupported
 
 PID = "C17"
 DEVIATIONS = {
@@ -161,7 +162,12 @@ def run(ctx, rep, tier):
                 gg = b_and(g1, g2)
                 if gg is False:
                     continue
-                same_g = b_or(same_g, b_and(gg, obs_eq(I, a, b)))
+                try:
+                    same_g = b_or(same_g, b_and(gg, obs_eq(I, a, b)))
+                except Unsupported:
+                    # a comparison the engine cannot encode matters only if both outcomes can occur together
+                    if I.feasible((), b_and(gg, *list(rd.assume) + list(rr.assume))):
+                        raise
         A = list(rd.assume) + [x for x in rr.assume if not any(x is y for y in rd.assume)]
         res, m = B.solve("%s:same-result" % name, A, b_not(same_g))
         if res == z3.sat:
